@@ -36,8 +36,8 @@ ASSUMPTIONS = ['the backoff function stops granting retries after the '
                'stated number of rounds (so every history is finite)',
                'final disposition is judged at quiescence of the event loop']
 CELL_BUDGET_S = {'quick': 200, 'thorough': 2400}
-SAMPLE_P = 0.005
-MAX_WITNESSES = 3
+SAMPLE_P = 0.02
+MAX_WITNESSES = 6
 
 
 def cells(tier):
